@@ -213,6 +213,19 @@ CHECKS = {
              "be valid UTF-8, at most max characters and equal to the law's text.",
         note=TLC_BASE + "; min <= max for the exact law, only the bound for min > max",
         design="7/C10"),
+    "C12": dict(
+        category="model_checking",
+        technique="TLA+ spec (JsonLine.tla: record space by character class + the line contract's member rule) "
+                  "enumerated by TLC; every record encoded by the real JsonEncoder and parsed back by Python's json",
+        text="JsonLine.tla enumerates records (text fields as class sequences over the characters a JSON writer must "
+             "treat specially, optional fields present / absent, thread named / unnamed, line numbers, MDC maps) and "
+             "states which members the line must have. The harness instantiates each class with several "
+             "representatives, encodes with the real encoder (after an earlier encode into a failing sink on the same "
+             "thread) and the driver checks the raw bytes (one object, exactly one trailing newline, no raw byte below "
+             "0x20) and compares every parsed field with the record. The fidelity verdict rests on the parser and the "
+             "representatives; TLA+ supplies the enumeration and the expected abstract line.",
+        note=TLC_BASE + "; Python json as independent reader; at most two fields deviate from the default per record",
+        design="7/C12"),
 }
 
 NOT_YET = "check not built yet in this round (planned, see DESIGN.md section 7)"
